@@ -164,6 +164,44 @@ def Doc.parseOwn (d : Doc) (b : Str) : Outcome Profile :=
   | .thread _ => parseThread b | .cpu _ => parseCPU b | .java _ => parseJavaProfile scaleF b
   | .javacpu _ => parseCPU b
 
+/-- the binary part of a document (empty for the text formats) and its text lines -/
+def Doc.parts : Doc → Str × List Str
+  | .count d => ([], d.lines) | .heap d => ([], d.lines) | .cont d => ([], d.lines) | .thread d => ([], d.lines)
+  | .java d => ([], d.lines)
+  | .cpu d =>
+    (words d.big d.w64 ([0, 3, 0, d.period, 0] ++ d.recs.flatMap CpuRec.words ++ (if d.eod then [0, 1, 0] else [])),
+     if d.eod then (match d.map with | none => [] | some m => m.bodyLines) else [])
+  | .javacpu d =>
+    (words d.big d.w64 ([0, 3, 1, d.period, 0] ++ d.recs.flatMap CpuRec.words ++ (if d.eod then [0, 1, 0] else [])),
+     if d.eod then d.trailerLines else [])
+
+/-- may text follow the binary part at all? (a binary profile without end marker ends with its last word) -/
+def Doc.textAllowed : Doc → Bool
+  | .cpu d => d.eod | .javacpu d => d.eod | _ => true
+
+/-- A termination variant: CRLF mask over the lines (bit i = line i), last line unterminated,
+bytes appended after the final terminator (only when there is one). -/
+structure Variant where
+  mask : Nat
+  noFinal : Bool
+  extra : Str
+
+def Doc.printV (d : Doc) (v : Variant) : Str :=
+  let (bin, ls) := d.parts
+  if !d.textAllowed then bin else
+  let cs := (List.range ls.length).map (fun i => v.mask.testBit (i % 64))
+  bin ++ renderLines cs v.noFinal ls ++ (if v.noFinal && !ls.isEmpty then [] else v.extra)
+
+/-- Is the documented meaning of the document unchanged by the variant?  CRLF, a missing final
+terminator and trailing blank material are tolerated by every parser, except: bytes other than
+blanks/newlines after the end (a NUL) and — Java text profiles — an unterminated last line that
+is an attribute or sample line (`parseJavaHeader`/`parseJavaSamples` only read terminated lines). -/
+def Doc.preserving (d : Doc) (v : Variant) : Bool :=
+  v.extra.all (fun b => b.toNat == 32 || b.toNat == 9 || b.toNat == 10 || b.toNat == 13) &&
+  (match d with
+   | .java jd => !v.noFinal || !jd.locs.isEmpty || jd.blanksAfter != 0
+   | _ => true)
+
 def outProfile : Outcome Profile → String
   | .ok p => "ok " ++ Wr.render (Wr.profile p)
   | .err e => "err " ++ (e.replace " " "-")
@@ -174,6 +212,17 @@ def ops : List (String × (List String → String)) := [
     match readDoc ts with
     | none => "bad-op"
     | some d => Str.toTok d.print),
+  -- print with a termination variant: mask noFinal extra, then the document; reply `<0|1> x<hex>`
+  -- (1 = the variant does not change the documented meaning)
+  ("legacy.printv", fun ts =>
+    match ts with
+    | m :: nf :: ex :: rest =>
+      (match m.toNat?, Str.ofTok? ex, readDoc rest with
+       | some mask, some extra, some d =>
+         let v : Variant := { mask := mask, noFinal := nf == "1", extra := extra }
+         (if d.preserving v then "1 " else "0 ") ++ Str.toTok (d.printV v)
+       | _, _, _ => "bad-op")
+    | _ => "bad-op"),
   ("legacy.wf", fun ts =>
     match readDoc ts with
     | none => "bad-op"
